@@ -183,6 +183,17 @@ restart:
 				return fin, trace, between
 			}
 		default:
+			if resp.Status == 400 && o.BadMd5 && last {
+				// the server refused the bytes (declared MD5 mismatch); a client that simply
+				// tries to finalise once more must be refused again, not rewarded
+				r.Fault("refinalise_after_rejection")
+				r.Probe("c02.refinalise_after_rejection")
+				again := w.ResumableChunk(o.Up.Bucket, id, nil, -1, N, false)
+				note("PUT bytes */%d (again) -> %d", N, again.Status)
+				if again.Status == 200 || again.Status == 201 {
+					return again, trace, between
+				}
+			}
 			return resp, trace, between
 		}
 	}
